@@ -583,20 +583,32 @@ func GetSNIHostsForServer(server *networking.Server) []string {
 // CheckDuplicates returns all of the hosts provided that are already known
 // If there were no duplicates, all hosts are added to the known hosts.
 func CheckDuplicates(hosts []string, bind string, knownHosts map[string]string) []string {
-	// A host is known per bind: the table is keyed by bind and host together. (Keyed by host alone, with the
-	// bind as value, a server on another bind made the table forget the first bind of the host, and a third
-	// server on the first bind was not recognized as a duplicate.)
-	key := func(h string) string { return bind + "/" + h }
+	// knownHosts maps a host to the bind it was first seen on (callers may pre-fill it that way). Further binds
+	// of the same host are kept under a composite key, so that the table never forgets a (host, bind) pair: with
+	// host -> last bind only, a server on another bind made it forget the first bind of the host, and a third
+	// server on the first bind was not recognized as a duplicate.
+	otherBind := func(h string) string { return "\x00" + bind + "\x00" + h }
+	known := func(h string) bool {
+		if existingBind, ok := knownHosts[h]; ok && bind == existingBind {
+			return true
+		}
+		_, ok := knownHosts[otherBind(h)]
+		return ok
+	}
 	var duplicates []string
 	for _, h := range hosts {
-		if _, ok := knownHosts[key(h)]; ok {
+		if known(h) {
 			duplicates = append(duplicates, h)
 		}
 	}
 	// No duplicates found, so we can mark all of these hosts as known
 	if len(duplicates) == 0 {
 		for _, h := range hosts {
-			knownHosts[key(h)] = bind
+			if _, ok := knownHosts[h]; !ok {
+				knownHosts[h] = bind
+			} else {
+				knownHosts[otherBind(h)] = bind
+			}
 		}
 	}
 	return duplicates
